@@ -403,6 +403,8 @@ impl Check for C15 {
 pub enum C17Case {
     Lib { file: WigCase },
     Tool(crate::clifam::AvgTool),
+    /// `average_over_bed` of the Python binding: every names mode x every stats form
+    Py { file: usize, regions: usize },
 }
 
 pub struct C17;
@@ -525,11 +527,18 @@ impl Check for C17 {
             })
         });
         let tools = crate::clifam::avg_tool_cases(quick).into_iter().map(C17Case::Tool);
+        let pys = (0..2usize).flat_map(|file| (0..4usize).map(move |regions| C17Case::Py { file, regions }));
+        let tools = tools.chain(pys);
         Box::new(singles.chain(multi).chain(tools))
     }
     fn run(&self, case: &C17Case, out: &mut Outcome) {
         let c = match case {
             C17Case::Lib { file } => file,
+            C17Case::Py { file, regions } => {
+                out.nontrivial = true;
+                crate::pyfam::c17_py(*file, *regions, out);
+                return;
+            }
             C17Case::Tool(t) => {
                 out.nontrivial = true;
                 crate::clifam::c17_tool(t, out);
